@@ -279,7 +279,7 @@ pub fn check(pid: &str, seed: u64) -> Value {
     if ["C02", "C05", "C06", "C07", "C08", "C10", "C16"].contains(&pid) {
         let mut rep = crate::preds2::Rep { evals: 0, nontrivial: 0, failures: vec![], samples: vec![] };
         let (domain, rule) = match pid {
-            "C02" => { crate::preds2::c02(&mut rep, seed); ("the hand-written buildings, the seeded buildings over the whole vocabulary of the format (60 quick / 600 thorough), every seventh enumerated single-step building and the multi-step ones x the four regulatory factor sets and two user files whose step A/B, grid / non-EPB destination and per-source factors all differ (every set for the first 20 buildings, two of the six in turn for the others) x k_exp in {0, 0.3, 1} x both load-matching modes x area 1 or 37.5; compared: every per-carrier, per-service, per-source and whole-building figure, per step and per period, and RER, against an independent f64 evaluation of the equations (replay/src/refimpl.rs)", "an evaluation is non-trivial when the crate returns a result") }
+            "C02" => { crate::preds2::c02(&mut rep, seed); ("the hand-written buildings, the seeded buildings over the whole vocabulary of the format (60 quick / 600 thorough), every seventh enumerated single-step building and the multi-step ones x the four regulatory factor sets and two user files whose step A/B, grid / non-EPB destination and per-source factors all differ (every set for the first 20 buildings, two of the six in turn for the others) x k_exp in {0, 0.3, 1} x both load-matching modes x area 1 or 37.5; compared: every per-carrier, per-service, per-source and whole-building figure, per step and per period, and RER, against an independent f64 evaluation of the equations (replay/src/refimpl.rs)", "every evaluation is a distinct (building, factor set, k_exp, mode) tuple; it is non-trivial when the building exports energy") }
             "C05" => { crate::preds2::c05(&mut rep); crate::preds2::c05_special(&mut rep); crate::preds2::c05_outputs(&mut rep); crate::preds2::c05_idempotent(&mut rep, seed); ("EAMBIENTE / TERMOSOLAR x two systems with ids from {-1,0,1} (also the same id twice) x use in {0, 2, (3,1)} x declared production in {none, 1, 5, (0,4)} x one use, two EPB uses, or an EPB and a non-EPB use per system; 2 steps; + hand-written files (interleaved systems, repeated demand lines, declared production carrying the comment of the automatic completion, outputs of either sign and of negative-id systems)", "every generated file has ambient / solar components") }
             "C06" => { crate::preds2::c06(&mut rep); crate::preds2::c06_special(&mut rep); ("system 1 with services {CAL},{CAL,ACS},{CAL,REF},{CAL,ACS,REF} x outputs from {30,10,-10,(30,0),(10,0),(0,20)} x AUX in {4,(4,2),(0,3)} x with/without a second single-service system with AUX x electricity otherwise present or absent; + hand-written systems (several AUX lines, negative system ids, cogeneration-only systems)", "multi-service systems are the non-trivial cases") }
             "C16" => { crate::preds2::c16(&mut rep, seed); ("the repository's test_data component files, the special buildings of the other predicates, 21 hand-written edge shapes (AUX without consumption, DHW demand with biomass and PV, empty / short / non-numeric / non-finite fields, different lengths) and 60 seeded token- or line-level corruptions (drop, duplicate, swap, replace) of each of the first 20 files; each parsed, evaluated with the full and the stripped factor set in both load-matching modes and passed to the DHW renewable fraction, under catch_unwind; + long lines of unknown kind with multi-byte text at every byte offset 45..115, metadata accessors, value parsers and corrupted factor files", "an input is non-trivial when it parses and at least one evaluation succeeds") }
@@ -287,7 +287,7 @@ pub fn check(pid: &str, seed: u64) -> Value {
             _ => { crate::preds2::c07(&mut rep, seed); ("factor files over every non-empty subset of {ELECTRICIDAD,GASNATURAL,BIOMASA,EAMBIENTE,RED1} with pairwise distinct marker values x 8 sets of user-given export factors x user RED1/RED2 {none, red1, both}; then up to 12 buildings over the carriers of the set (PV surplus, cogeneration with one or two fuels, non-EPB uses of electricity / ambient heat / solar thermal, outputs and auxiliaries) x (k_exp, load matching) in {(0,off),(0.5,on)}, each with the full and the stripped set; + hand-written buildings with the regulatory sets and component sets built in code with an unassigned auxiliary component", "every accepted factor file is non-trivial") }
         };
         let fails: Vec<Value> = rep.failures.into_iter().filter(|f| { let c = f["clause"].as_str().unwrap_or(""); match pid { "C07" => c.starts_with("C07"), "C08" => c.starts_with("C08"), _ => true } }).collect();
-        return json!({"property": pid, "seed": seed, "evaluations": rep.evals, "distinct_nontrivial": rep.nontrivial, "exhaustive": true, "domain": domain, "rule": rule, "failures": fails, "samples": rep.samples});
+        return json!({"property": pid, "seed": seed, "evaluations": rep.evals, "distinct_nontrivial": rep.nontrivial, "exhaustive": (["C06", "C07", "C08"].contains(&pid)), "domain": domain, "rule": rule, "failures": fails, "samples": rep.samples});
     }
     let singles = gen::singles();
     let multis = gen::multis(seed, scale());
@@ -697,8 +697,8 @@ pub fn check(pid: &str, seed: u64) -> Value {
         }
     }
     json!({
-        "property": pid, "seed": seed, "evaluations": evals, "distinct_nontrivial": nontrivial, "exhaustive": true,
-        "domain": "every single-step building over cal_el,pv in {0,.5,1,2,3} x nepb_el,chp in {0,1,3} x acs_el in {0,1} x gas,amb in {0,2} (1800; some predicates use a stated stride) + fixed special multi-step buildings and seeded 2-3 step buildings (60 quick / 600 thorough); PENINSULA factors (all four locations for the C14 text cases); both load-matching modes; text cases of each property (hand-written buildings, 30/39/52-step and 8760-step series, areas 0.004..12.345, component sets built in code for C01); comparisons between two evaluations (C03, C04 per m2, C09, C10, C11) cover every numeric field of the serialized result by path, not a list of fields",
+        "property": pid, "seed": seed, "evaluations": evals, "distinct_nontrivial": nontrivial, "exhaustive": false,
+        "domain": "every single-step building over cal_el,pv in {0,.5,1,2,3} x nepb_el,chp in {0,1,3} x acs_el in {0,1} x gas,amb in {0,2} (1800; some predicates use a stated stride) + fixed special multi-step buildings and seeded 2-3 step buildings (60 quick / 600 thorough; the enumerated part is complete, the seeded part is a sample - hence exhaustive: false); PENINSULA factors (all four locations for the C14 text cases); both load-matching modes; text cases of each property (hand-written buildings, 30/39/52-step and 8760-step series, areas 0.004..12.345, component sets built in code for C01); comparisons between two evaluations (C03, C04 per m2, C09, C10, C11) cover every numeric field of the serialized result by path, not a list of fields",
         "rule": "a case is non-trivial when it has on-site or cogenerated electricity together with EPB electricity use",
         "failures": failures.into_iter().chain(known.into_iter()).collect::<Vec<_>>(), "samples": samples,
     })
